@@ -25,7 +25,7 @@ def enc(t):
 
 
 def check(rep, tier, seed, replay):
-    budget = 2_000_000 if tier == "thorough" else 100_000     # plain simulator cycles per application
+    budget = 200_000 if tier == "thorough" else 50_000     # plain simulator cycles per application (the symbolic validator takes over beyond)
     napps = 60 if tier == "thorough" else 25                     # applications taken per run
     cases = c02.corpus(tier, seed)
     rich, ncand = c02.rule_rich(tier, seed, cases)
